@@ -157,11 +157,28 @@ func runHistory(t *testing.T, sub *vf.Sub, i int, fixed []string) {
 					break
 				}
 				e := proto.Clone(cur).(*pb.Silence)
-				switch r.Intn(3) {
+				switch r.Intn(4) {
 				case 0:
 					e.EndsAt = timestamppb.New(e.EndsAt.AsTime().Add(gen.Pick(r, []time.Duration{time.Minute, 10 * time.Minute})))
 				case 1:
 					e.MatcherSets = silh.PBMatchers(genSets(r))
+				case 2:
+					// the smallest change of the matchers there is: one matcher's operator (= <-> !=, =~ <-> !~), or one
+					// matcher's value, everything else as stored
+					if len(e.MatcherSets) > 0 {
+						ms := gen.Pick(r, e.MatcherSets)
+						if len(ms.Matchers) > 0 {
+							m := gen.Pick(r, ms.Matchers)
+							if r.Intn(3) > 0 {
+								m.Type = map[pb.Matcher_Type]pb.Matcher_Type{pb.Matcher_EQUAL: pb.Matcher_NOT_EQUAL, pb.Matcher_NOT_EQUAL: pb.Matcher_EQUAL, pb.Matcher_REGEXP: pb.Matcher_NOT_REGEXP, pb.Matcher_NOT_REGEXP: pb.Matcher_REGEXP}[m.Type]
+							} else {
+								m.Pattern += "x"
+							}
+						}
+					}
+					if e.EndsAt.AsTime().Before(now) {
+						e.EndsAt = timestamppb.New(now.Add(time.Minute))
+					}
 				default:
 					e.Comment = fmt.Sprintf("c%d", n)
 					if e.EndsAt.AsTime().Before(now) {
